@@ -26,7 +26,7 @@ def _second_opinion(prop: str, tier: str, mod, ctx: Ctx) -> None:
 
     known = load_known()
     failing = [o for o in ctx.obligations if not o.ok and not any(_matches(e, prop, o) for e in known)]
-    if not failing and not ctx.analysis_errors:
+    if (not failing and not ctx.analysis_errors) or os.environ.get("VERIF_NO_INLINE"):
         return
     try:
         repo_b, stats = build_inlined_repo()
